@@ -61,15 +61,16 @@ type OpRec struct {
 }
 
 type HistRec struct {
-	Idx      int      `json:"idx"`
-	Seeds    []string `json:"seeds"`
-	IDs      []string `json:"ids"`
-	Init     State    `json:"init"`
-	Ops      []OpRec  `json:"ops"`
-	EndNotes []string `json:"end_notes"` // violations found at the quiescent end (H4, reopen)
-	EndKinds []string `json:"end_kinds"`
-	Pauses   int64    `json:"store_pauses,omitempty"` // pauses the store inserted after commits (wl.DelayDB)
-	Stress   *Stress  `json:"stress,omitempty"`
+	Idx      int         `json:"idx"`
+	Seeds    []string    `json:"seeds"`
+	IDs      []string    `json:"ids"`
+	Init     State       `json:"init"`
+	Ops      []OpRec     `json:"ops"`
+	EndNotes []string    `json:"end_notes"` // violations found at the quiescent end (H4, reopen)
+	EndKinds []string    `json:"end_kinds"`
+	Pauses   int64       `json:"store_pauses,omitempty"` // pauses the store inserted after commits (wl.DelayDB)
+	Stress   *Stress     `json:"stress,omitempty"`
+	Gov      *Governance `json:"governance,omitempty"`
 }
 
 // Stress is the record of an observer-stress history: writers issue keys one call after the other while readers
@@ -210,6 +211,9 @@ func oneHistory(rng *vh.Rng, idx int, dir string) HistRec {
 	rec := HistRec{Idx: idx}
 	if idx%10 == 9 {
 		return stressHistory(rng, idx, dir)
+	}
+	if idx%10 == 4 {
+		return governanceHistory(rng, idx, dir)
 	}
 	pub, priv := wl.FreshPass(rng), wl.FreshPass(rng)
 	// two in three histories run over a store that pauses after a seeded share of its commits (see wl.DelayDB)
@@ -357,6 +361,112 @@ func oneHistory(rng *vh.Rng, idx int, dir string) HistRec {
 		rec.EndNotes = append(rec.EndNotes, d)
 	}
 	wb.Close()
+	return rec
+}
+
+// Governance is the record of a governance-race history: operations that ADD a keystore under the current private
+// passphrase (ImportKeystore, NewKeystore) race with ChangePrivPassphrase. Whatever order they take effect in, afterwards
+// one passphrase must open every keystore: the new one if the change was acknowledged, else the old one.
+type Governance struct {
+	Rounds int      `json:"rounds"`
+	Both   int      `json:"rounds_where_adder_and_change_both_succeeded"`
+	Kinds  []string `json:"kinds,omitempty"`
+	Notes  []string `json:"notes,omitempty"`
+}
+
+func governanceHistory(rng *vh.Rng, idx int, dir string) HistRec {
+	rec := HistRec{Idx: idx, Gov: &Governance{}}
+	g := rec.Gov
+	pub, cur := wl.FreshPass(rng), wl.FreshPass(rng)
+	wa, err := wl.Create(filepath.Join(dir, "keystore"), pub, nil)
+	if err != nil {
+		rec.EndNotes = append(rec.EndNotes, "setup failed: "+err.Error())
+		return rec
+	}
+	defer wa.Close()
+	xpub, xpass := wl.FreshPass(rng), wl.FreshPass(rng)
+	wx, err := wl.Create(filepath.Join(dir, "exporter"), xpub, nil)
+	if err != nil {
+		rec.EndNotes = append(rec.EndNotes, "setup failed: "+err.Error())
+		return rec
+	}
+	defer wx.Close()
+	if _, err := wa.M.NewKeystore(cur, rng.Bytes(32), "resident", wl.Net(), wl.FastScrypt); err != nil {
+		rec.EndNotes = append(rec.EndNotes, "setup failed: "+err.Error())
+		return rec
+	}
+	if rng.Bool() {
+		wa.M.Unlock(cur)
+	}
+	rounds := rng.Range(2, 4)
+	for r := 0; r < rounds; r++ {
+		next := wl.FreshPass(rng)
+		adder := rng.PickS("import", "import", "create")
+		var js []byte
+		if adder == "import" {
+			xid, err := wx.M.NewKeystore(xpass, rng.Bytes(32), fmt.Sprintf("x%d", r), wl.Net(), wl.FastScrypt)
+			if err != nil {
+				break
+			}
+			wx.M.NextAddresses(xid, false, uint32(rng.Range(1, 12))) // more keys: a longer import transaction
+			if js, err = wx.M.ExportKeystore(xid, xpass); err != nil {
+				break
+			}
+		}
+		seed := rng.Bytes(32)
+		skewA, skewB := time.Duration(rng.Intn(1500))*time.Microsecond, time.Duration(rng.Intn(1500))*time.Microsecond
+		var errAdd, errChg error
+		var wg sync.WaitGroup
+		wg.Add(2)
+		old := cur
+		go func() {
+			defer wg.Done()
+			time.Sleep(skewA)
+			if adder == "import" {
+				_, _, errAdd = wa.M.ImportKeystore(js, xpass, old)
+			} else {
+				_, errAdd = wa.M.NewKeystore(old, seed, "added", wl.Net(), wl.FastScrypt)
+			}
+		}()
+		go func() {
+			defer wg.Done()
+			time.Sleep(skewB)
+			errChg = wa.M.ChangePrivPassphrase(old, next, wl.FastScrypt)
+		}()
+		wg.Wait()
+		g.Rounds++
+		if errAdd == nil && errChg == nil {
+			g.Both++
+		}
+		want := old
+		if errChg == nil {
+			want = next
+		}
+		// governance probe: which of the two passphrases exports each keystore
+		acc := map[string]string{}
+		bad := false
+		for _, id := range wa.M.ListKeystoreNames() {
+			_, eo := wa.M.ExportKeystore(id, old)
+			_, en := wa.M.ExportKeystore(id, next)
+			acc[id] = fmt.Sprintf("old=%v new=%v", eo == nil, en == nil)
+			if (eo == nil) != (errChg != nil) || (en == nil) != (errChg == nil) {
+				bad = true
+			}
+		}
+		if bad {
+			g.Kinds = append(g.Kinds, "passphrase-governs-some-keystores-only")
+			g.Notes = append(g.Notes, fmt.Sprintf("round %d: %s (err %v) raced ChangePrivPassphrase (err %v); afterwards the keystores accept: %v", r, adder, errAdd, errChg, acc))
+			break
+		}
+		// and the wallet unlocks as a whole with the governing passphrase
+		wa.M.Lock()
+		if err := wa.M.Unlock(want); err != nil {
+			g.Kinds = append(g.Kinds, "governing-passphrase-does-not-unlock")
+			g.Notes = append(g.Notes, fmt.Sprintf("round %d: %s (err %v) raced ChangePrivPassphrase (err %v); Unlock with the governing passphrase: %v", r, adder, errAdd, errChg, err))
+			break
+		}
+		cur = want
+	}
 	return rec
 }
 
@@ -664,7 +774,7 @@ func exec(wa *wl.Wallet, ids []string, priv []byte, in In, pubOf func(k, br, i i
 			return fail(err)
 		}
 		var f struct {
-			Remark string `json:"remark"`
+			Remark string                                           `json:"remark"`
 			HD     struct{ ExternalChildNum, InternalChildNum int } `json:"hdPath"`
 		}
 		if err := json.Unmarshal(js, &f); err != nil {
@@ -749,7 +859,13 @@ func main() {
 			if len(fatal) > 0 {
 				what = strings.SplitN(fatal[0], "\n", 2)[0]
 			}
-			run.Violate(last, "process-crashed-under-concurrent-wallet-use", map[string]string{"what": what, "site": site}, map[string]interface{}{"exit": res.ExitCode, "signal": res.Signal, "history": last, "fatal": fatal})
+			if fr := vh.DyingFrames(logf); len(fr) > 0 && vh.CodeUnderTestFrame(fr) == "" {
+				// the goroutine the process died in has no frame of the code under test: a fault of the harness, never a verdict
+				run.Drop("child died in harness code")
+				run.Inconclusive("a child process died in harness code: " + fr[0])
+			} else {
+				run.Violate(last, "process-crashed-under-concurrent-wallet-use", map[string]string{"what": what, "site": site}, map[string]interface{}{"exit": res.ExitCode, "signal": res.Signal, "history": last, "fatal": fatal})
+			}
 		}
 		// linearizability of every recorded history
 		for _, l := range vh.ReadLines(out) {
@@ -782,10 +898,24 @@ func main() {
 	sort.Strings(plist)
 	run.Set("distinct_racing_pairs_in_repository", plist)
 	run.Set("distinct_interleavings", len(interleavings))
-	run.Finish("case = one concurrent history: 2-4 goroutines x 4-16 operations (plot-key issuance, address generation, signing, ordinal/address lookups, listing, counts, remark read/change, export, lock, unlock, IsLocked) on 1-2 keystores of a real wallet, run under the race detector in child processes; each history is checked with porcupine against a sequential wallet model (checker timeout = dropped case), the quiescent end state is inspected (H4) and reopened; two in three histories run over a store that pauses after 35% of its commits (up to 4 ms: widens the window between store update and in-memory publication); every tenth case is an observer-stress history instead (1-2 writers issue 40-92 keys call after call, 3-5 readers poll CountAddresses / ManagedAddresses / GetPublicKeyOrdinal in a tight loop; every answer must lie between what was acknowledged before the call and what was requested by its return, counts never go backwards, listings are prefixes); non-trivial = >= 2 operations overlapped in real time and >= 1 state-changing operation (stress: >= 1 read while a write was in flight); distinct by hash of the call/return order", run.N(150, 5000))
+	run.Finish("case = one concurrent history: 2-4 goroutines x 4-16 operations (plot-key issuance, address generation, signing, ordinal/address lookups, listing, counts, remark read/change, export, lock, unlock, IsLocked) on 1-2 keystores of a real wallet, run under the race detector in child processes; each history is checked with porcupine against a sequential wallet model (checker timeout = dropped case), the quiescent end state is inspected (H4) and reopened; two in three histories run over a store that pauses after 35% of its commits (up to 4 ms: widens the window between store update and in-memory publication); every tenth case is a governance race instead (ImportKeystore / NewKeystore under the current private passphrase racing ChangePrivPassphrase, 2-4 rounds; afterwards one passphrase - the new one iff the change was acknowledged - must export every keystore and unlock the wallet), another tenth is an observer-stress history (1-2 writers issue 40-92 keys call after call, 3-5 readers poll CountAddresses / ManagedAddresses / GetPublicKeyOrdinal in a tight loop; every answer must lie between what was acknowledged before the call and what was requested by its return, counts never go backwards, listings are prefixes); non-trivial = >= 2 operations overlapped in real time and >= 1 state-changing operation (stress: >= 1 read while a write was in flight); distinct by hash of the call/return order", run.N(150, 5000))
 }
 
 func judge(run *vh.Run, h *HistRec, interleavings map[uint64]bool, imu *sync.Mutex) {
+	if h.Gov != nil {
+		if h.Gov.Rounds == 0 {
+			run.Drop("governance-race history without a round (setup failed)")
+			return
+		}
+		run.Count("governance_race_histories", 1)
+		run.Count("governance_race_rounds", int64(h.Gov.Rounds))
+		run.Count("governance_race_rounds_where_both_succeeded", int64(h.Gov.Both))
+		for _, k := range h.Gov.Kinds {
+			run.Violate(h.Idx, k, map[string]string{"race": "keystore-added-vs-passphrase-change"}, map[string]interface{}{"history": h})
+		}
+		run.Case(vh.HashS(fmt.Sprintf("gov-%d-%d-%d", h.Idx, h.Gov.Rounds, h.Gov.Both)), true)
+		return
+	}
 	if h.Stress != nil {
 		st := h.Stress
 		if st.Reads == 0 || st.Issued[0]+st.Issued[1] == 0 {
